@@ -226,6 +226,23 @@ func (g *fnGen) doCallWithArgs(st *state, cc *ssa.CallCommon, instr ssa.Instruct
 			}
 		}
 	}
+	// readonly-receiver: handing the receiver to a callee that may write it
+	if g.ct != nil && g.ct.Flags["readonly-receiver"] && len(g.fn.Params) > 0 && g.fn.Signature.Recv() != nil {
+		recv := g.vals[g.fn.Params[0]]
+		for _, a := range ca.args {
+			if a != recv {
+				continue
+			}
+			safe := g.isPure(cc, calleeName)
+			if ct != nil && (ct.Flags["readonly-receiver"] || (ct.HasAssigns && len(ct.Assigns) == 0)) {
+				safe = true
+			}
+			if !safe {
+				g.oblige(st, "readonly", "call "+site, cc.Pos(), "", "false", "the receiver is handed to "+shortName(calleeName)+", which has no contract keeping it unwritten")
+			}
+			break
+		}
+	}
 	// "at" hooks
 	hookNames := map[string]binding{}
 	for i, a := range ca.args {
